@@ -500,6 +500,112 @@ theorem rune_offset_candidates_aligned (data : Bytes) (r k : Nat) :
     IsBoundary data (advance r data) ∧ IsBoundary data (advance (r + k) data) :=
   ⟨isBoundary_advance r data, isBoundary_advance (r + k) data⟩
 
+/-- the content ranges the chunk-mode report contains, when every gathered candidate is a content candidate -/
+theorem report_chunks_content_ranges (data name : Bytes) (ctx : Nat) (cands : List Cand)
+    (hb : ∀ c ∈ cands, c.off + c.sz ≤ (if c.fileName then name.length else data.length))
+    (hG : ∀ c ∈ gatherCands name cands, c.fileName = false) :
+    (((rangesOfChunks (reportChunks data name ctx cands)).flatMap id).filter (fun r => !r.fileName)).map
+        (fun r => (r.off, r.len)) = (gatherCands name cands).map (fun c => (c.off, c.sz)) := by
+  obtain ⟨sel, h1, _, _, _, h5⟩ := reportChunks_flat data name ctx cands hb
+  have hall : (gatherCands name cands).filter (fun c => !c.fileName) = gatherCands name cands := by
+    rw [List.filter_eq_self]; intro c hc; simp [hG c hc]
+  rw [h1]
+  have : (candsAsRanges sel).filter (fun r => !r.fileName) = candsAsRanges (sel.filter (fun c => !c.fileName)) := by
+    simp only [candsAsRanges, List.filter_map]; rfl
+  rw [this, h5, hall]
+  simp only [candsAsRanges, List.map_map]
+  rfl
+
+/-- … and the line-mode report: the gathered candidates cut at newline bytes -/
+theorem report_lines_content_ranges (data name : Bytes) (ctx : Nat) (cands : List Cand)
+    (hb : ∀ c ∈ cands, c.off + c.sz ≤ (if c.fileName then name.length else data.length))
+    (hG : ∀ c ∈ gatherCands name cands, c.fileName = false) (lms : List LineMatch)
+    (hl : reportLines data name ctx cands = some lms) :
+    (((rangesOfLines lms).flatMap id).filter (fun r => !r.fileName)).map (fun r => (r.off, r.len)) =
+      (gatherCands name cands).flatMap (fun c => cutAtNL data c.off c.sz) := by
+  have g := gathered_of_gather data name cands hb
+  obtain ⟨lms', sel, h1', h3, h4⟩ := reportLines_flat data name ctx cands hb
+  have hlms : lms' = lms := by rw [hl] at h1'; exact (Option.some.inj h1').symm
+  subst hlms
+  have hall : (gatherCands name cands).filter (fun c => !c.fileName) = gatherCands name cands := by
+    rw [List.filter_eq_self]; intro c hc; simp [hG c hc]
+  rw [hall] at h4
+  rcases h4 with ⟨h5, _, _⟩ | ⟨rfl, hfalse⟩
+  · exact absurd h5 (gatherCands_ne_nil name cands)
+  · rw [h3]
+    have : (candsAsRanges (breakMatchesOnNewlines data (gatherCands name cands))).filter (fun r => !r.fileName) =
+        candsAsRanges (breakMatchesOnNewlines data (gatherCands name cands)) := by
+      rw [List.filter_eq_self]
+      intro r hr
+      simp only [candsAsRanges, List.mem_map] at hr
+      obtain ⟨c, hcm, rfl⟩ := hr
+      simp [hfalse c hcm]
+    rw [this]
+    simp only [candsAsRanges, breakMatchesOnNewlines, List.map_map, List.map_flatMap]
+    apply flatMap_congr'
+    intro c hc
+    have hin := g.inBounds c hc
+    simp only [hG c hc, Bool.false_eq_true, if_false] at hin
+    exact breakOnNewlines_eq_cut data c hin
+
+theorem filterFrom_eq_greedy_var (last : Cand) (l : List Cand) (hl : last.fileName = false) (hc : ∀ c ∈ l, c.fileName = false) :
+    (filterFrom last l).map (fun c => (c.off, c.sz)) = greedyFrom (last.off + last.sz) (l.map fun c => (c.off, c.sz)) := by
+  induction l generalizing last with
+  | nil => rfl
+  | cons x r ih =>
+    have hx := hc x (by simp)
+    have hr : ∀ c ∈ r, c.fileName = false := fun c h => hc c (by simp [h])
+    simp only [filterFrom, hl, hx, bne_self_eq_false, Bool.false_eq_true, if_false, List.map_cons, greedyFrom, ge_iff_le]
+    by_cases h : last.off + last.sz ≤ x.off
+    · simp only [h, if_true, List.map_cons]
+      rw [ih x hx hr]
+    · simp only [h, if_false]
+      exact ih last hl hr
+
+/-- **C02 end to end, single content substring given by its occurrences** (the case-insensitive form, whose matched byte
+    length may differ from the pattern's): when the atom's candidates are its occurrences listed by increasing offset,
+    the reported ranges are exactly the successive leftmost non-overlapping ones (cut at newlines in line mode). -/
+theorem C02_search_occurrences (data name : Bytes) (ctx : Nat) (cands : List Cand) (hne : cands ≠ [])
+    (hcontent : ∀ c ∈ cands, c.fileName = false) (hinb : ∀ c ∈ cands, c.off + c.sz ≤ data.length)
+    (hsorted : cands.Pairwise (fun a b => a.off < b.off)) :
+    checkP data name false .occs cands (rangesOfChunks (reportChunks data name ctx cands)) = true ∧
+    ∃ lms, reportLines data name ctx cands = some lms ∧ checkP data name true .occs cands (rangesOfLines lms) = true := by
+  have hb : ∀ c ∈ cands, c.off + c.sz ≤ (if c.fileName then name.length else data.length) := by
+    intro c hc; simp only [hcontent c hc, Bool.false_eq_true, if_false]; exact hinb c hc
+  have hcle : cands.Pairwise cle := by
+    refine hsorted.imp_of_mem ?_
+    intro a b ha hb' hab
+    rw [cle_iff]; right
+    exact ⟨by rw [hcontent a ha, hcontent b hb'], Or.inl hab⟩
+  have hlen : ¬ cands.length = 0 := by simpa using hne
+  have hgather : (gatherCands name cands).map (fun c => (c.off, c.sz)) =
+      greedyFrom 0 (cands.map fun c => (c.off, c.sz)) := by
+    simp only [gatherCands, hlen, if_false]
+    rw [sortCands_of_sorted hcle]
+    cases cands with
+    | nil => exact absurd rfl hne
+    | cons c r =>
+      simp only [overlapFilter, List.map_cons, greedyFrom, ge_iff_le, Nat.zero_le, if_true]
+      rw [filterFrom_eq_greedy_var c r (hcontent c (by simp)) (fun x hx => hcontent x (by simp [hx]))]
+  have hG : ∀ c ∈ gatherCands name cands, c.fileName = false := by
+    intro c hc
+    rcases gather_mem_cases name cands c hc with h | ⟨h, _⟩
+    · exact hcontent c h
+    · exact absurd h hne
+  have hfilter : cands.filter (fun c => !c.fileName) = cands := by
+    rw [List.filter_eq_self]; intro c hc; simp [hcontent c hc]
+  constructor
+  · rw [checkP_split, C02_search_chunks data name ctx cands hb, Bool.true_and]
+    simp only [beq_iff_eq]
+    rw [report_chunks_content_ranges data name ctx cands hb hG, hgather, hfilter]
+    simp [expectedSingle]
+  · obtain ⟨lms, h1, h2⟩ := C02_search_lines data name ctx cands hb
+    refine ⟨lms, h1, ?_⟩
+    rw [checkP_split, h2, Bool.true_and]
+    simp only [beq_iff_eq]
+    rw [report_lines_content_ranges data name ctx cands hb hG lms h1, hfilter]
+    simp only [expectedSingle, if_true, ← hgather, List.flatMap_map]
+
 /-- the source constants the `findOffset` theorems depend on, regenerated from the working tree by the translator on
     every run: `runeOffsetFrequency` is the model's `freq`, and the window `findOffset` reads holds 99 runes of 4 bytes -/
 theorem source_constants_ok :
@@ -514,6 +620,8 @@ theorem findOffset_exact_source (docs : List Bytes) (hclean : ∀ d ∈ docs, Cl
 
 example := C02_search_regexp [97, 98, 10, 97, 98] [102] 1 [⟨false, 0, 3⟩, ⟨false, 3, 0⟩, ⟨false, 4, 1⟩]
   ⟨by decide, by decide, by decide⟩ (by decide)
+example := C02_search_occurrences [97, 98, 10, 97, 98] [102] 1 [⟨false, 0, 2⟩, ⟨false, 1, 3⟩, ⟨false, 3, 2⟩]
+  (by decide) (by decide) (by decide) (by decide)
 example := C02_search_chunks [97, 98, 10, 97, 98] [102] 1 [⟨false, 0, 2⟩, ⟨false, 3, 2⟩, ⟨true, 0, 1⟩] (by decide)
 example := C02_search_lines_substring [97, 98, 10, 97, 98] [102] 1 [97, 98] (by decide) [⟨false, 3, 2⟩, ⟨false, 0, 2⟩]
   (by decide) (by decide)
